@@ -38,15 +38,36 @@ def S(chars):
 def rust_str(s):
     return json.dumps(s)
 
+# Concretisation of the attribute SPELLING (same definition for serde and for the oracle): how the serde attributes of one item are
+# distributed over `#[serde(..)]` attributes (serde accepts any distribution), and whether `default` names its function.  Chosen from
+# the id of the definition, so every definition has one spelling per run and every spelling occurs in every family.
+KEYWORDS = {"type"}
+def ident(name):
+    return ("r#" + name) if name in KEYWORDS else name
+def attr_lines(attrs, did, salt=0):
+    """-> list of `#[serde(..)]` attributes carrying `attrs`: all in one (did % 3 == 0), one each (1), first alone + rest (2)"""
+    if not attrs:
+        return []
+    k = (did + salt) % 3
+    if k == 0 or len(attrs) == 1:
+        groups = [attrs]
+    elif k == 1:
+        groups = [[a] for a in attrs]
+    else:
+        groups = [attrs[:1], attrs[1:]]
+    return ["#[serde(%s)]" % ", ".join(g) for g in groups]
+def default_attr(did, salt=0):
+    return 'default = "crate::common::dflt"' if (did + salt) % 2 == 1 else "default"
+
 def render_struct(d):
+    did = d["id"]
     cattrs = []
     if d["ra"] != "none":
         cattrs.append('rename_all = %s' % rust_str(d["ra"]))
     if d["cdefault"]:
         cattrs.append("default")
     out = ["#[derive(Serialize, Deserialize, Schema, Default)]"]
-    if cattrs:
-        out.append("#[serde(%s)]" % ", ".join(cattrs))
+    out += attr_lines(cattrs, did)
     out.append("pub struct T {")
     inits = []
     for f in d["fields"]:
@@ -63,15 +84,15 @@ def render_struct(d):
             a.append("skip_deserializing")
         if f["ssif"]:
             a.append('skip_serializing_if = "Option::is_none"')
-        if f["fdefault"]:
-            a.append("default")
         base = {"str": "String", "int": "i32", "inner": "Inner", "bool": "bool"}[f["ty"]]
+        if f["fdefault"]:
+            a.append(default_attr(did, len(inits)) if not f["opt"] else "default")
         val = {"str": "s()", "int": "7", "inner": "inner(some)", "bool": "true"}[f["ty"]]
         if f["opt"]:
             base = "Option<%s>" % base
             val = "if some { Some(%s) } else { None }" % val
-        name = S(f["name"])
-        out.append("    %spub %s: %s," % (("#[serde(%s)] " % ", ".join(a)) if a else "", name, base))
+        name = ident(S(f["name"]))
+        out.append("    %spub %s: %s," % ("".join(x + " " for x in attr_lines(a, did, len(inits))), name, base))
         inits.append("%s: %s" % (name, val))
     out.append("}")
     out.append("fn mk(some: bool) -> T { let _ = some; T { %s } }" % ", ".join(inits))
@@ -90,8 +111,7 @@ def render_enum(d):
     elif d["tagging"] == "untagged":
         cattrs.append("untagged")
     out = ["#[derive(Serialize, Deserialize, Schema)]"]
-    if cattrs:
-        out.append("#[serde(%s)]" % ", ".join(cattrs))
+    out += attr_lines(cattrs, d["id"])
     out.append("pub enum T {")
     samples, arms = [], []
     for i, v in enumerate(d["variants"], 1):
@@ -101,7 +121,7 @@ def render_enum(d):
         if v.get("vra", "none") != "none":
             a.append("rename_all = %s" % rust_str(v["vra"]))
         name = S(v["name"])
-        pre = ("#[serde(%s)] " % ", ".join(a)) if a else ""
+        pre = "".join(x + " " for x in attr_lines(a, d["id"], i))
         if v["shape"] == "unit":
             out.append("    %s%s," % (pre, name))
             mk = "T::%s" % name
@@ -241,6 +261,8 @@ def classify_compile_failure(errs):
         elif "is not satisfied" in w or "not implemented for" in w:
             m = re.search(r"`([^`]+): ([\w:]+)`", w)
             cls = "trait-unsatisfied" + ("-" + m.group(1).split("::")[-1] if m else "")
+        elif "cannot parse a serde attribute" in w:
+            cls = "serde-attribute-not-parsed"
         else:
             cls = "E:" + (e["code"] or "other")
     return cls
@@ -353,6 +375,12 @@ def compile_filter(ctx, defs, mode, failed, max_rounds=6):
                             "(does /repo still compile with features rt_tokio,openapi?): %s" % "; ".join(loose[:3]))
         for i, errs in per.items():
             e = errs[0]
+            # syn's bare "unexpected token" on a token of a `#[serde(..)]` attribute: an attribute parser that stopped in the middle of serde's
+            # grammar.  serde_derive names what it refuses ("unknown serde ... attribute", "malformed ... attribute"); the spellings the renderer
+            # writes are serde's own (they compile without derive(Schema)), so the parser that gave up is derive(Schema)'s.
+            if "Schema" not in e["who"] and e["what"].startswith("unexpected token") and e["kind"] == "derive-compile-error":
+                e["who"] = "Schema (its parser of serde attributes)"
+                errs[0]["what"] = "derive(Schema) cannot parse a serde attribute: " + e["what"]
             if "Schema" not in e["who"]:
                 raise ToolError("definition %d is rejected by %s, not by derive(Schema): the generator left serde's grammar: %s"
                                 % (i, e["who"], e["what"]))
